@@ -172,6 +172,10 @@ def setup_pt(ex):
         s = z3.simplify(v.t)
         if z3.is_rational_value(s):
             return (s.numerator_as_long() == s.denominator_as_long(),)
+        if ex_.ctx.params.get("fork_isone"):
+            # explore both outcomes of the test on a compound value (the special branch is only ever used to look for
+            # violations, which must reproduce natively; identities proved on the generic branch hold where t != 1)
+            return (simp_bool(v.t == 1),)
         ex_.ctx.add_fact(v.t != 1)
         return (False,)
     I[pre + "IsOne"] = isone
